@@ -10,10 +10,12 @@ def run(ctx):
         c.tlc_l1(ctx, "Windows.tla", "MC_Windows_%s.cfg" % w, expect_violation=w, workers=2)
     # deeper single-machine graphs: add_event / record / clear mixed on one sliding TimeWindow; WindowedStream with a small per-window cap
     c.graph_leg(ctx, "Windows.tla", "windows", "Gen_Windows_slide.cfg", {"MaxEv": 4}, 300 if q else 3000, 6, 0)
-    c.graph_leg(ctx, "Windows.tla", "windows", "Gen_Windows_batch.cfg", {"MaxEv": 6}, 300 if q else 3000, 7, 0)
+    # the aggregated payload field is a flat key; a key that contains the path separator must behave like any other
+    FV = [{"field": "m.x"}]
+    c.graph_leg(ctx, "Windows.tla", "windows", "Gen_Windows_batch.cfg", {"MaxEv": 6}, 300 if q else 3000, 7, 0, variants=FV, variant_walks=0)
     if q:
         c.graph_leg(ctx, "Windows.tla", "windows", "Gen_Windows.cfg", {"MaxEv": 2}, 500, 8, 3,
-                    "Sim_Windows.cfg", 1200, 14, sim_cfgobj={"MaxEv": 12})
+                    "Sim_Windows.cfg", 1200, 14, sim_cfgobj={"MaxEv": 12}, variants=FV, variant_walks=0)
     else:
         c.graph_leg(ctx, "Windows.tla", "windows", "Gen_Windows_3.cfg", {"MaxEv": 3}, 5000, 10, 4,
                     "Sim_Windows.cfg", 40000, 14, sim_cfgobj={"MaxEv": 12}, timeout=3000)
